@@ -485,6 +485,15 @@ def _getcwd(ex, e, args, kwargs, p):
     return [(app("PROCESS_CWD"), p)]
 
 
+@lib("sys.exc_info", "A-cpython")
+def _excinfo(ex, e, args, kwargs, p):
+    # (type, value, traceback) of the exception being handled, or (None, None, None): total, reads interpreter state, writes nothing.
+    # The three components are unconstrained (each may be None); a traceback object has the attribute tb_lineno.
+    only(e, args, kwargs, 0)
+    ex.ctx.effect(ex, p, "read-process-exc-state", "process:exc_info", e)
+    return [(Tup([app("SYS_EXC_TYPE"), app("SYS_EXC_VALUE"), app("SYS_EXC_TB")]), p)]
+
+
 @lib("copy.deepcopy", "A-cpython")
 def _deepcopy(ex, e, args, kwargs, p):
     # value semantics: an equal structure (axiom DEEPCOPY(x) == x); a fresh object for the frame engine
